@@ -170,7 +170,7 @@ func (ex *Exec) assumeWF(st *State, v Value) {
 			st.assume(Le(v.L[i+1], st.Alloc))
 			st.assume(Implies(Eq(x, Int(0)), Eq(v.L[i+1], Int(0))))
 		case "str":
-			st.assume(Le(Int(0), UF("slen", SInt, x)))
+			st.assume(And(Le(Int(0), UF("slen", SInt, x)), Le(UF("slen", SInt, x), IntB(pow2[62]))))
 		}
 	}
 }
